@@ -33,6 +33,13 @@ theorem entries_ok : syntaxTable.all (entryOk T) = true := by decide +kernel
 theorem codes_consistent : T.codesOk = true ∧ syntaxTable.all (fun s => encode s.kw == s.code) = true := by
   decide +kernel
 
+/-- Keyword case.  The abstract lines of the model carry the keyword in upper case, i.e. the model is blind to the
+    case the file uses; that is sound only while every place that reads the keyword off the line folds its case
+    (`line.upper()` before `word = line[:4]`, `atomline[:4].upper()` in `is_atom`, `spline[0].upper()` on every path
+    of `Command._parse_line` and of `Restraint._parse_line`).  Re-checked against the source on every run; the
+    harness additionally parses every keyword in lower, Title and mIxEd case in all three modes. -/
+theorem keyword_case_folded : T.caseSites.length = 4 ∧ T.caseSites.all (·.2) = true := by decide
+
 theorem atoms_ok : (atomForms.filter plainCoords).all (atomOk T) = true := by decide +kernel
 
 /-! ## 2. Generic lemmas (any table): from the per-entry check to single lines -/
